@@ -152,9 +152,29 @@ def w_program(case):
                          'published in place (%s)' % lab, 'expected': names,
                          'observed': m.parameters(), 'behaviour': 'renamed'})
             return {'transitions': ntr, 'outcome': 'renamed', 'violations': viol}
-    for fixed in case['fixed_sets']:
+    for fixed in case['fixed_sets'] + [['wrap']]:
+        # ('wrap': the parameter-fixing wrapper with nothing fixed; the caller sorts
+        # the name list it was handed, which is the caller's)
+        wrap_only = fixed == ['wrap']
+        if wrap_only:
+            fixed = []
         free_idx = [i for i in range(len(names)) if i not in fixed]
-        if fixed:
+        if wrap_only:
+            rm = chi.ReducedMechanisticModel(m)
+            m.set_outputs(list(sel))
+            handed = rm.parameters()
+            if isinstance(handed, list):
+                handed.sort(reverse=True)
+                handed.append('appended by the caller')
+            rm.enable_sensitivities(True)
+            model = rm
+            if model.parameters() != names:
+                viol.append({'sub': 'reduced_names', 'message': 'names of the '
+                             'wrapper with nothing fixed changed with the list '
+                             'handed out earlier', 'expected': names,
+                             'observed': model.parameters(),
+                             'behaviour': 'reduced_names'})
+        elif fixed:
             rm = chi.ReducedMechanisticModel(m)
             m.set_outputs(list(sel))
             # (fixed at other values first: the values in force are the last ones)
@@ -365,6 +385,11 @@ def w_program(case):
                 md = chi.PKPDModel(sbmlgen.write(desc, tmp))
             finally:
                 shutil.rmtree(tmp, ignore_errors=True)
+            if variant == 'sens_before_route':
+                # sensitivities were on (and used) before the route was chosen
+                md.set_outputs(list(sel))
+                md.enable_sensitivities(True)
+                md.simulate(list(pv), list(times))
             md.set_administration(comp, amount_var='drug_%s_amount' % comp,
                                   direct=True)
             if case.get('rename'):
@@ -417,6 +442,25 @@ def w_program(case):
                                  'the documented initial-value problem with a depot '
                                  '(%s)' % lab, 'expected': ey, 'observed': y,
                                  'behaviour': 'dosed_values'})
+                continue
+            if variant == 'sens_before_route':
+                duration = 0.4
+                md.set_dosing_regimen(dose, start=start, duration=duration)
+                md.enable_sensitivities(True)
+                y, S_ = md.simulate(list(pv), list(times))
+                y = np.asarray(y, dtype=float)
+                ntr += 4
+                r_ = rc.solve(desc, dict(zip(orig, pv)), times, dosed=comp,
+                              events=[(start, duration, dose / duration)])
+                ey = np.real(np.array([r_[o] for o in sel]))
+                if y.shape != ey.shape or not tol.allclose(
+                        y, ey, tol.ODE_REL, tol.ODE_ABS):
+                    viol.append({'sub': 'dosed_values', 'message': 'simulation '
+                                 'with sensitivities of the dosed model is not the '
+                                 'solution of the dosed initial-value problem when '
+                                 'sensitivities had been enabled before the route '
+                                 'was set (%s)' % lab, 'expected': ey,
+                                 'observed': y, 'behaviour': 'dosed_values'})
                 continue
             if variant in ('plain_numbers', 'plain_protocol'):
                 import myokit
@@ -626,7 +670,10 @@ def w_library(case):
     return {'transitions': 4, 'outcome': tol.rnd(y, 6), 'violations': viol}
 
 
-WORKERS = {'generated': w_program, 'library': w_library}
+from . import c10 as _c10_mod  # noqa: E402
+
+WORKERS = {'generated': w_program, 'library': w_library,
+           'amount_var': _c10_mod.w_amount_var}
 
 
 def build(tier, seed):
@@ -660,7 +707,8 @@ def build(tier, seed):
                       'rename': [[], [1], list(range(n)), [0, n - 1]][di % 4],
                       'dosed': sorted(c['id'] for c in desc['comps'])[
                           di % len(desc['comps'])],
-                      'dose_variants': ['plain_indirect', 'plain_numbers',
+                      'dose_variants': ['plain_indirect', 'sens_before_route',
+                                        'plain_numbers',
                                         'plain_protocol',
                                         'sens_twice', 'fix_after_sens', 'subset',
                                         'toggle', 'wrapper_default']})
@@ -676,8 +724,15 @@ def build(tier, seed):
                             'times': [[0.0, 0.5, 2.0],
                                       sorted(vals.reals('c09.lt', 3, 0.1, 4, seed))
                                       ][k]})
+    from . import c10 as _c10
+    av = [c for part in _c10.build(tier, seed)['parts']
+          if part.name == 'amount_var' for c in part.cases]
     return {
         'parts': [
+            Part('amount_var', av, _c10.w_amount_var,
+                 'two species in one compartment, dosed through either state '
+                 'variable and route after every sequence of <= 3 '
+                 'set_administration calls (cases and closed form of C10)'),
             Part('generated', cases, w_program,
                  'generated compartment models x declaration orders x output '
                  'selections x points x grids x sensitivity subsets'),
@@ -715,3 +770,9 @@ META = {
                   'self-tested against closed forms): decides how chi uses the solver '
                   'API, not CVODES. Linear models only for generated programs.',
 }
+META['level_text'] += (
+    ' Also: indirect administration with a depot (closed form), a model whose own c'
+    "ompartment is called 'dose', a model with two species in one compartment dosed"
+    ' through either state variable after every sequence of <= 3 set_administration'
+    ' calls, sensitivities enabled before the route is chosen, the wrapper with not'
+    'hing fixed.')
